@@ -20,8 +20,16 @@ Part A  tla/Api/Api.tla   blocklist (abstract keys: a domain, its sub-domain, a 
     scripted upstream.  After every step: status + JSON body judged against the README, the real blocklist projected
     through BlockList.Exists for every name of the universe and compared with the documented effect; DNS query steps are
     classified blocked / cache / upstream by the upstream's call counter; a closing sweep asks every name over DNS.
-Part B  tla/ApiRouter/Router.tla   the router's radix tree as a pure function: TLC enumerates route sets x request paths
-        over a tiny alphabet, each (routes, path) -> (handler, params) | none | panic replayed on the real api.Router.
+Part B  tla/ApiRouter/Router.tla   the router (api/router.go, api/tree.go) as a pure function: registered patterns x request
+        path -> serving pattern + bound parameters | none.  TLC enumerates every (route set, path) as an initial state, checks
+        Sound / UniqueRouted / NoMatchNone / ParamOneSegment on the model's answer (3 negative twins) and prints the case;
+        each is replayed on a fresh real api.Router (both registration orders, plus the trailing-slash variant).
+  - MC_Readme: the README's own endpoint table, paths = instantiations of its rows and their mutants: VERDICT-BEARING
+    (a path that matches exactly one documented pattern reaches it with the documented parameters; a path that matches
+    none gets 404).
+  - MC_Tiny2 / MC_Tiny3 (thorough): every set of <= 2 / 3 patterns over {a, b, :p, :q, *}, every path of <= 3 segments over
+    {a, b, c}: the tree does not backtrack and leaks parameters of abandoned branches on OVERLAPPING sets -- no document
+    promises otherwise and the API registers no such set, so differences are OBSERVATIONS (router-*), never verdicts.
 
 Verdict classes (digest keys) `api/<class>`: auth-open, auth-closed, auth-mutates, set-reply, set-success/<shape>, set-exists,
 remove-reply, remove-success, exists, exists-reply, get, get-reply, batch-reply, batch-added/duplicate, batch-removed,
@@ -155,16 +163,15 @@ def run_tier(ctx):
     if not hist:
         raise vf.MachineryError("no walk came out of Sim_Replay")
     inp = {"histories": hist, "probes": True, "strict": STRICT, "router": rcases}
-    res = ctx.go_driver("./xapi", "TestXApi", inp, name="xapi", timeout=1200)
+    obs_path = os.path.join(ctx.scratch, "observations.tsv")
+    res = ctx.go_driver("./xapi", "TestXApi", inp, name="xapi", timeout=1200, env={"XAPI_OBS_OUT": obs_path})
     c = fold(ctx, res, "[Api] ")
+    report_observations(ctx, obs_path)
     info = {k: v for k, v in c.items()}
     info["drift"] = res["drift"]
     info["drift_notes"] = res.get("drift_notes", [])[:20]
     ctx.cov["replay"]["replay"] = info
     ctx.cov["traces_validated_against_impl"] += c.get("histories", 0)
-    if c.get("observation_get_wildcard", 0):
-        print("OBSERVATION property=%s api/get-wildcard: block/get/*.evil.vf answers 404 \"not found\" although block/set of that key "
-              "succeeded and block/exists says true (Get looks at the exact-name map only)" % ctx.pid, flush=True)
     if not res.get("violations") or ctx.known_hits:
         vac = []
         need = {"steps": 1500, "steps_set": 50, "steps_remove": 50, "steps_purge": 50, "steps_query": 200, "unauthenticated": 50,
@@ -175,26 +182,77 @@ def run_tier(ctx):
         for k, n in need.items():
             if c.get(k, 0) < n:
                 vac.append("%s=%d < %d" % (k, c.get(k, 0), n))
-        if rcases and c.get("router_cases", 0) < len(rcases):
-            vac.append("router cases %d < %d" % (c.get("router_cases", 0), len(rcases)))
+        nr = sum(len(s["cases"]) for s in rcases)
+        if c.get("router_cases", 0) < nr or nr < 1000 or c.get("router_unique_routed", 0) < 500 or c.get("router_none", 0) < 200:
+            vac.append("router cases %d of %d, unique matches routed %d, none %d" % (c.get("router_cases", 0), nr,
+                                                                                      c.get("router_unique_routed", 0), c.get("router_none", 0)))
         if vac:
             raise vf.MachineryError("XAPI was vacuous: " + "; ".join(vac))
     ctx.log("replay: %d histories, %d steps; model = code on %d outcomes, differs on %d; %d projections equal; queries blocked/cache/upstream "
-            "%d/%d/%d; purged-then-upstream %d; unauthenticated calls %d; router cases %d"
+            "%d/%d/%d; purged-then-upstream %d; unauthenticated calls %d; router cases %d (equal %d, differing on overlapping sets %d)"
             % (c.get("histories", 0), c.get("steps", 0), c.get("outcome_equals_model", 0), c.get("outcome_differs_from_model", 0),
                c.get("projections_equal", 0), c.get("query_blocked", 0), c.get("query_cache", 0), c.get("query_upstream", 0),
-               c.get("purged_then_upstream", 0), c.get("unauthenticated", 0), c.get("router_cases", 0)))
+               c.get("purged_then_upstream", 0), c.get("unauthenticated", 0), c.get("router_cases", 0), c.get("router_equal", 0), c.get("router_differs", 0)))
 
 
 # ---------------------------------------------------------------------------------------------------
 # Part B: the router tree (filled in only when tla/ApiRouter exists)
 # ---------------------------------------------------------------------------------------------------
+RMOD = "ApiRouter"
+RSPEC = "MC_Router.tla"
+R_NEGATIVE = [("Neg_WildEmpty.cfg", "Sound"), ("Neg_DropWild.cfg", "UniqueRouted"), ("Neg_Phantom.cfg", "NoMatchNone")]
+
+
+def router_enumerate(ctx, cfg, judged):
+    """TLC enumerates (route set, path) as initial states and prints each with the model's answer."""
+    r = ctx.tlc(RMOD, RSPEC, cfg, workers=1, timeout=900, heap="3g")
+    sets = {}
+    n = 0
+    for ln in r.out.splitlines():
+        if not ln.startswith('"{') or "CASE" not in ln:
+            continue
+        rec = json.loads(json.loads(ln))
+        key = json.dumps(rec["routes"])
+        o = rec["out"]
+        sets.setdefault(key, {"routes": rec["routes"], "judged": judged, "cases": []})["cases"].append(
+            {"path": rec["path"], "route": o["route"], "params": o["params"], "rest": o["rest"], "n": o["n"]})
+        n += 1
+    if n == 0 or n != r.distinct:
+        raise vf.MachineryError("%s: %d cases printed, %d states" % (cfg, n, r.distinct))
+    return list(sets.values())
+
+
 def router_jobs(ctx, thorough):
-    return []
+    ctx.spec_dir(RMOD)
+    jobs = [lambda: router_enumerate(ctx, "MC_Readme.cfg", True),
+            lambda: router_enumerate(ctx, "MC_Tiny3.cfg" if thorough else "MC_Tiny2.cfg", False)]
+    jobs += [lambda c=c: ctx.tlc(RMOD, RSPEC, c, workers=1, timeout=300, heap="2g", must_pass=False, count=False, tag="mutant-must-fail")
+             for c, _ in R_NEGATIVE]
+    return jobs
 
 
 def router_collect(ctx, outs):
-    return []
+    sets = outs[0] + outs[1]
+    info = {"route_sets": len(sets), "cases": sum(len(s["cases"]) for s in sets), "mutants_refute": {}}
+    for (c, want), r in zip(R_NEGATIVE, outs[2:]):
+        if r.violated != want:
+            raise vf.MachineryError("%s: the model mutant must violate %s, TLC says %r" % (c, want, r.violated))
+        info["mutants_refute"][c] = want
+    ctx.cov["replay"]["router_model"] = info
+    return sets
+
+
+def report_observations(ctx, obs_path):
+    obs = {}
+    if os.path.exists(obs_path):
+        for ln in open(obs_path).read().splitlines():
+            if "\t" in ln:
+                c, w = ln.split("\t", 1)
+                obs[c] = w
+    for c in sorted(obs):
+        print("OBSERVATION property=%s api/%s: %s" % (ctx.pid, c, obs[c]), flush=True)
+    ctx.cov["replay"]["observations"] = obs
+    return obs
 
 
 def run(ctx, replay):
@@ -222,8 +280,10 @@ def replay_file(ctx, path):
         inp["router"] = [rp["case"]]
     else:
         raise vf.MachineryError("replay file %s: unknown driver %r" % (path, drv))
-    res = ctx.go_driver("./xapi", "TestXApi", inp, name="replay_xapi", timeout=900)
+    obs_path = os.path.join(ctx.scratch, "observations.tsv")
+    res = ctx.go_driver("./xapi", "TestXApi", inp, name="replay_xapi", timeout=900, env={"XAPI_OBS_OUT": obs_path})
     fold(ctx, res, "[replay Api] ")
+    report_observations(ctx, obs_path)
     ctx.cov["rule"] = "replay of %s" % path
     ctx.sample({"replayed": path, "driver": drv})
     ctx._distinct.update(["replay", path])
